@@ -132,6 +132,8 @@ pub struct DeEvent {
 pub const DE_EVENTS: &[&str] = &[
     "str", "borrowed_str", "string", "bytes", "borrowed_bytes", "byte_buf", "u8", "u16", "u32", "u64", "i64", "f64",
     "bool", "char", "unit", "none", "some", "seq", "map", "newtype",
+    // the payload as a SEQUENCE of u8 elements: with an exact size hint, without one, with one that is too low
+    "seq_u8", "seq_u8_nohint", "seq_u8_lowhint",
 ];
 
 struct MockDeserializer<'a> {
@@ -139,6 +141,26 @@ struct MockDeserializer<'a> {
     ev: &'a DeEvent,
     hint: &'a std::cell::RefCell<String>,
     depth: u32,
+}
+
+struct U8Seq<'a> {
+    data: &'a [u8],
+    pos: usize,
+    hint: Option<usize>,
+}
+impl<'de, 'a> SeqAccess<'de> for U8Seq<'a> {
+    type Error = MockError;
+    fn next_element_seed<T: de::DeserializeSeed<'de>>(&mut self, seed: T) -> Result<Option<T::Value>, MockError> {
+        if self.pos >= self.data.len() {
+            return Ok(None);
+        }
+        let b = self.data[self.pos];
+        self.pos += 1;
+        seed.deserialize(de::value::U8Deserializer::<MockError>::new(b)).map(Some)
+    }
+    fn size_hint(&self) -> Option<usize> {
+        self.hint.map(|h| h.saturating_sub(self.pos.min(h)))
+    }
 }
 
 struct Empty;
@@ -186,6 +208,9 @@ impl<'a> MockDeserializer<'a> {
             "unit" => visitor.visit_unit(),
             "none" => visitor.visit_none(),
             "seq" => visitor.visit_seq(Empty),
+            "seq_u8" => visitor.visit_seq(U8Seq { data: p, pos: 0, hint: Some(p.len()) }),
+            "seq_u8_nohint" => visitor.visit_seq(U8Seq { data: p, pos: 0, hint: None }),
+            "seq_u8_lowhint" => visitor.visit_seq(U8Seq { data: p, pos: 0, hint: Some(p.len() / 2) }),
             "map" => visitor.visit_map(Empty),
             "some" if self.depth < 2 => {
                 visitor.visit_some(MockDeserializer { human: self.human, ev: self.ev, hint: self.hint, depth: self.depth + 1 })
@@ -383,6 +408,9 @@ pub fn run_c16(out: &mut Out, rng: &mut Rng, thorough: bool, only: Option<&str>)
                 payloads.push(p);
             }
         }
+        for p in crate::fam_codec::wrapped_forms(&hex_text_unchecked(v, &good, true)).into_iter().take(if thorough { 100 } else { 18 }) {
+            payloads.push(p);
+        }
         // forms derived from the canonical text: doubled prefix, one digit more / less
         {
             let canon = hex_text_unchecked(v, &good, true);
@@ -433,6 +461,29 @@ pub fn run_c16(out: &mut Out, rng: &mut Rng, thorough: bool, only: Option<&str>)
             }
             emit_de_doc(out, v, "cbor", "bytes", p, &cbor_bytes(p));
         }
+        // the binary form (and longer / shorter byte strings) written as ARRAYS of integers
+        for extra in [0usize, 1, n + 3] {
+            let mut b = good.clone();
+            b.extend(rng.bytes(extra));
+            let items: Vec<u8> = b.iter().flat_map(|&x| if x < 24 { vec![x] } else { vec![0x18, x] }).collect();
+            let mut definite = if b.len() < 24 { vec![0x80 + b.len() as u8] } else { vec![0x98, b.len() as u8] };
+            definite.extend_from_slice(&items);
+            let mut indefinite = vec![0x9f];
+            indefinite.extend_from_slice(&items);
+            indefinite.push(0xff);
+            emit_de_doc(out, v, "cbor", "other", &[], &definite);
+            emit_de_doc(out, v, "cbor", "other", &[], &indefinite);
+            let js = format!("[{}]", b.iter().map(|x| x.to_string()).collect::<Vec<_>>().join(","));
+            emit_de_doc(out, v, "json", "other", &[], js.as_bytes());
+            if b.len() < 128 {
+                // postcard has no types: a "sequence of u8" is byte-identical to a byte string (length prefix)
+            }
+        }
+        let short: Vec<u8> = good[..n - 1].to_vec();
+        let mut d = vec![0x9f];
+        d.extend(short.iter().flat_map(|&x| if x < 24 { vec![x] } else { vec![0x18, x] }));
+        d.push(0xff);
+        emit_de_doc(out, v, "cbor", "other", &[], &d);
         for doc in [&b"12"[..], b"null", b"true", b"[1,2]", b"{\"a\":1}", b"1.5"] {
             emit_de_doc(out, v, "json", "other", &[], doc);
         }
